@@ -2,21 +2,36 @@
 
    The model turns every unwrap / expect / index / slice / "Impossible" panic of the pipeline
    into an explicit Panic result, and every loop into recursion on fuel.
-   Proved: the front-end parse loop (the tables of parser.rs, regenerated on this run) never
+   Proved: the tokenizer never panics on any text (every slice it takes is on character boundaries
+   inside the source) and has no unbounded loop; the front-end parse loop (the tables of parser.rs, regenerated on this run) never
    reaches a Panic, for every token sequence and every fuel; the table-construction stage returns
    no error other than a conflict (so no other failure is disguised as one).
    NOT proved: C07_total (generate_model never returns Panic, and some fuel always suffices);
    the check runs the crate on malformed and unusual inputs in-process under catch_unwind and in
    watchdog-guarded child processes, and requires Ok/Err equal to the model's result. *)
 From Coq Require Import List.
-From Kiki Require Import Base.Ord Base.Chars Data LR.Driver LR.ValidateProofs Front.Parse Front.KikiValid
+From Kiki Require Import Base.Ord Base.Chars Data Lex.Model Lex.NoPanic LR.Driver LR.Term LR.ValidateProofs Front.Parse Front.KikiValid
   Build.Machine Build.Table Build.TableProofs.
+From Kiki Require Gen.KikiAnn.
 
 Theorem C07_front_end_loop_never_panics : forall fuel (w : list token) site,
   parse token_kind kiki_ptable fuel w <> OPanic site.
 Proof.
   exact (fun fuel w site =>
            validated_safe token_kind kiki_ptable _ _ kiki_tables_valid fuel w site (all_tokens_bounded w)).
+Qed.
+
+Theorem C07_tokenizer_never_panics : forall src site,
+  tokenize src <> Panic site /\ tokenize src <> OutOfFuel site.
+Proof. exact tokenize_never_panics. Qed.
+
+Theorem C07_front_end_loop_terminates : forall (w : list token),
+  parse token_kind kiki_ptable
+        (Gen.KikiAnn.kiki_K + ph Gen.KikiAnn.kiki_phi (pt_start kiki_ptable)
+         + length w * (Gen.KikiAnn.kiki_K + M Gen.KikiAnn.kiki_phi + 1) + 1) w <> OOutOfFuel.
+Proof.
+  exact (fun w => validated_terminates token_kind kiki_ptable _ _ kiki_tables_valid _ _ kiki_tables_terminate
+                    w (all_tokens_bounded w)).
 Qed.
 
 Theorem C07_table_stage_fails_only_with_a_conflict : forall m f ho e,
@@ -28,4 +43,6 @@ Proof.
 Qed.
 
 Print Assumptions C07_front_end_loop_never_panics.
+Print Assumptions C07_tokenizer_never_panics.
+Print Assumptions C07_front_end_loop_terminates.
 Print Assumptions C07_table_stage_fails_only_with_a_conflict.
